@@ -1187,6 +1187,104 @@ def manifold_part(run, r, runner, n):
                 break
 
 
+def kman_part(run, r, runner, n):
+    """changing force constant (continuous / staged / lambdaSchedule, decoupling, exponent, equilibration, accumulated work,
+    run boundaries and restarts) on a harmonic restraint with a FIXED centre on a manifold-valued variable (distanceDir,
+    orientation, distanceVec).  By C06_k_moving_on_unit_vector / _quaternion the restraint is the scalar model run on the
+    history of geodesic distances: the C++ runs on the real variable, the extracted scalar model and the scalar oracle on
+    theta_t = sqrt(dist2(value_t, centre)) computed from the reported values."""
+    cases = []
+    tries = 0
+    while len(cases) < n and tries < 50 * n:
+        tries += 1
+        c = gen_case(r, len(cases))
+        if c["kind"] != "harmonic" or c["mode"] not in ("kc", "ks", "kl") or len(c["vars"]) != 1:
+            continue
+        kind = r.choice(["uv", "uv", "q", "q", "v3"])
+        dim = DIM[kind]
+        while True:
+            cen = [V.dyadic(r, -2, 2, bits=3) for _ in range(dim)]
+            if sum(x * x for x in cen) > 0.25:
+                break
+        c["vars"] = [{"w": c["vars"][0]["w"], "per": False}]
+        c["mvar"] = {"kind": kind, "w": c["vars"][0]["w"], "c0": cen, "c1": cen}
+        c["centers"] = [0.0]
+        c["target_centers"] = [0.0]
+        c["pos"] = [gen_positions(r, c["mvar"]) for _ in c["events"]]
+        last = None
+        for j, (typ, xs) in enumerate(c["events"]):      # a step computed again keeps its configuration (or is perturbed, as gen_case decided)
+            if typ != "S" and last is not None and xs == c["events"][last][1]:
+                c["pos"][j] = c["pos"][last]
+            if typ == "S":
+                last = j
+        cases.append(c)
+    fmtv = lambda q: "(" + ", ".join("%r" % x for x in q) + ")"
+    scn = []
+    for k, c in enumerate(cases):
+        bl = [l for l in bias_block(c) if not l.startswith("  centers ") and not l.startswith("  colvars ")]
+        bl = [bl[0], bl[1], "  colvars v0", "  centers " + fmtv(c["mvar"]["c0"])] + bl[2:]
+        conf = ["config EOF"] + gen_var_block(0, c["mvar"], 1) + bl + ["EOF"]
+        L = ["echo CASE %d" % k, "natoms %d" % NATOMS[c["mvar"]["kind"]], "new"]
+        if c["it0"]:
+            L.append("setstep %d" % c["it0"])
+        L += ["capture"] + conf + ["show atomf 0 cv 0 energy 0 bias 0"]
+        nsave = 0
+        for (typ, xs), pos in zip(c["events"], c["pos"]):
+            for i, q in enumerate(pos):
+                L.append("pos %d %s %s %s" % (i + 1, hx(q[0]), hx(q[1]), hx(q[2])))
+            if typ == "B":
+                L.append("runboundary")
+            elif typ == "R":
+                f = os.path.join(runner.scratch, "km%d_%d.state" % (k, nsave))
+                nsave += 1
+                L += ["save %s %s" % (c.get("fmt", "text"), f), "fresh", "capture"] + conf + ["load %s" % f]
+            L += ["step", "rdump"]
+        L.append("echo END %d" % k)
+        c["scenario"] = L
+        scn += L
+    rc2, iout, e2 = V.run_lines(runner.unit, scn, cwd=runner.scratch, timeout=900)
+    impl = parse_impl(iout)
+    mlines, ds, where = [], [], []
+    for k, c in enumerate(cases):
+        cs = impl.get(k)
+        mv = c["mvar"]
+        run.dist("k-moving:%s:%s" % (mv["kind"], c["mode"]))
+        rp = {"kind": "kman", "case": {kk: vv for kk, vv in c.items() if kk != "scenario"}, "scenario": c["scenario"]}
+        if cs is None or not cs["complete"] or len(cs["steps"]) != len(c["events"]) or any("err=ok" not in l for l in cs["config"]):
+            run.mismatch("k-moving-manifold", rp["case"], ((cs or {}).get("config", []) + (cs or {}).get("raw", []))[-3:], "complete run")
+            continue
+        ths = []
+        ps = []
+        for o in cs["steps"]:
+            x = o["X"][0] if isinstance(o["X"][0], list) else [o["X"][0]]
+            cen = o["C"][0] if isinstance(o["C"][0], list) else [o["C"][0]]
+            th = math.sqrt(max(0.0, gen_dist2(mv, x, cen)))
+            ths.append(th)
+            kk = o["K"] if o["K"] is not None else c["k"]
+            ps.append(dict(o, C=[0.0], X=[th], F=[-kk / (mv["w"] ** 2) * th]))
+        c2 = dict(c, events=[(typ, [th]) for (typ, _), th in zip(c["events"], ths)])
+        c2.pop("scenario", None); c2.pop("pos", None); c2.pop("mvar", None)
+        ml, d = model_case(c2, runner.wallsinit)
+        for sig, text in oracle(c2, d, ps):
+            run.violation(sig + ":manifold", "%s variable, geodesic distances %r: %s" % (mv["kind"], ths[:6], text), rp)
+        mlines.append(ml)
+        ds.append(d)
+        where.append((c2, ps, rp))
+        run.count("kman%d" % k, True)
+    rc, mout, e = V.run_lines(runner.model, mlines)
+    for (c2, ps, rp), d, line, mlc in zip(where, ds, mout, mlines):
+        ms = parse_model_line(line)
+        for a in ms:
+            a["C"] = [0.0]
+        for a, b in zip(ms, ps):
+            b["F"] = a["F"] if all(close(x, y, 1e-7) for x, y in zip(a["F"], b["F"])) else b["F"]    # the scalar force is not observable: -k/w^2 theta
+        bad = compare(c2, d, ms, ps)
+        if bad:
+            run.mismatch("k-moving-manifold", {"case": rp["case"], "model_case": mlc}, bad, "agreement")
+    if len(mout) != len(where):
+        run.mismatch("k-moving-manifold", "model run", len(where), len(mout))
+
+
 def tsf_part(run, runner):
     """timeStepFactor f > 1: the bias is updated every f steps.  Continuous schedules are evaluated at the updated steps
     (and are stale in between, by design); staged schedules test exact step numbers and miss them (recorded finding)."""
@@ -1199,9 +1297,10 @@ def tsf_part(run, runner):
     scn += scen(["  targetForceConstant 4.0", "  targetNumSteps 4", "  lambdaExponent 2"], 8, 1)   # continuous k
     scn += scen(["  targetCenters 3.0", "  targetNumSteps 4", "  targetNumStages 2"], 12, 2)    # staged centres: moves due at steps 1, 5, 9
     scn += scen(["  targetForceConstant 4.0", "  targetNumSteps 3", "  targetNumStages 2"], 8, 3)   # staged k: stage ends at 3, 6
+    scn += scen(["  targetCenters 3.0", "  targetNumSteps 3"], 8, 4)                          # continuous centres, N not a multiple of f
     rc2, iout, e2 = V.run_lines(runner.unit, scn, cwd=runner.scratch)
     impl = parse_impl(iout)
-    for k in range(4):
+    for k in range(5):
         cs = impl.get(k)
         run.dist("timeStepFactor")
         if cs is None or not cs["complete"] or any("err=ok" not in l for l in cs["config"]):
@@ -1216,6 +1315,15 @@ def tsf_part(run, runner):
                 want = 1.0 + 2.0 * min(1.0, tu / 4.0)
                 if not close(o["C"][0], want):
                     run.violation("timestepfactor:continuous-centers", "timeStepFactor 2, step %d: centre %r, schedule at the last updated step %d prescribes %r" % (t, o["C"][0], tu, want), rp)
+            elif k == 4:
+                # theorem C06_center_schedule_timestepfactor: centre = schedule at last_update = f*(min(t, t0+N)/f) = 2 for t >= 2
+                lu = 2 * (min(t, 3) // 2)
+                model = 1.0 + 2.0 * min(1.0, lu / 3.0)
+                if not close(o["C"][0], model):
+                    run.violation("timestepfactor:continuous-centers", "timeStepFactor 2, N 3, step %d: centre %r, the schedule at the last update not beyond the end (%d) gives %r" % (t, o["C"][0], lu, model), rp)
+                want = 1.0 + 2.0 * min(1.0, tu / 3.0)
+                if not close(o["C"][0], want):
+                    run.violation("timestepfactor:continuous-schedule-stops-short", "timeStepFactor 2, centres 1->3, targetNumSteps 3, step %d: centre %r, schedule at the last updated step %d prescribes %r (the target is never reached)" % (t, o["C"][0], tu, want), rp)
             elif k == 1:
                 want = 2.0 + 2.0 * min(1.0, tu / 4.0) ** 2
                 if not close(o["K"], want):
@@ -1269,14 +1377,18 @@ def ti_part(run, r, runner, n):
     # parse TID lines per case
     cur = None
     got = {}
+    aux = {}
     okc = {}
     for l in iout:
         if l.startswith("echo CASE"):
             cur = int(l.split()[2]); got[cur] = []; okc[cur] = True
         elif cur is not None and l.startswith("TID "):
-            got[cur].append([(int(t.split(":")[0]), float.fromhex(t.split(":")[1])) for t in l.split()[3:]])
+            d_ = parse_fields(l)
+            got[cur].append([(int(t.split(":")[0]), float.fromhex(t.split(":")[1])) for t in d_["G"].split(",") if t])
+            aux.setdefault(cur, []).append((float.fromhex(d_["X"]), float.fromhex(d_["TF"]), float.fromhex(d_["FB"])))
         elif cur is not None and (l.startswith("CONFIG") or l.startswith("LOAD") or l.startswith("SAVE")) and "err=ok" not in l:
             okc[cur] = False
+    tie_lines, tie_where = [], []
     for k, c in enumerate(cases):
         run.dist("colvarbias_ti:%s" % ("same-step" if c["same"] else "lagged"))
         g = got.get(k, [])
@@ -1308,6 +1420,21 @@ def ti_part(run, r, runner, n):
                 bad = True
                 break
         run.count("ti%d" % k, sum(cnt) >= 3)
+        # tie: the extracted estimator model (coq/C06/TIEstimator.v) on the values, total forces and bias forces the implementation reports
+        ax = aux.get(k, [])
+        if len(ax) == len(c["events"]):
+            tie_lines.append("TIRUN %d %s %s 4 0 %d %s" % (1 if c["same"] else 0, hx(0.0), hx(1.0), len(ax),
+                                                         " ".join("%s %s %s %s" % (typ if typ == "S" else typ, hx(x_), hx(tf), hx(fb)) for (typ, _, _), (x_, tf, fb) in zip(c["events"], ax))))
+            tie_where.append((k, g, rp))
+    rc, mout, e = V.run_lines(runner.model, tie_lines)
+    if len(mout) != len(tie_where):
+        run.mismatch("colvarbias_ti", "model run", len(tie_where), len(mout))
+    for (k, g, rp), line in zip(tie_where, mout):
+        mg = [[(int(t.split(":")[0]), float.fromhex(t.split(":")[1])) for t in part.split()] for part in line.split(" ; ")]
+        for j, (a, b) in enumerate(zip(g, mg)):
+            if [h[0] for h in a] != [h[0] for h in b] or not all(close(x[1], y[1]) for x, y in zip(a, b)):
+                run.mismatch("colvarbias_ti", {"case": rp["case"], "event": j}, a, b)
+                break
 
 
 def setup():
@@ -1408,6 +1535,7 @@ def check(run):
     abmd_part(run, r, runner, 40 if quick else 2000)
     hist_part(run, r, runner, 40 if quick else 2500)
     manifold_part(run, r, runner, 60 if quick else 3000)
+    kman_part(run, r, runner, 40 if quick else 1500)
     tsf_part(run, runner)
     ti_part(run, r, runner, 40 if quick else 1500)
     run.cov["correspondence"].update({"scenarios": len(cases), "regression_scenarios": len(wit)})
